@@ -90,7 +90,7 @@ def _job(args):
                 enc = rules.Enc()
                 cases, metas = [], []
                 for k in range(0, max(1, depth_max) + 1):       # 0: everything collapses into module_path itself
-                    lim = scan.real_scan(base, root, mp, level_limit=k, **opts)
+                    lim = scan.real_scan(base, root, mp, level_limit=(True if k == 1 and it % 4 == 1 else k), **opts)      # True is the integer 1
                     out["n"] += 1
                     case = dict(dirs=[list(d) for d in dirs], files={scan.dotted(f): (scan.render_v(v) if v["py"] else None) for f, v in files.items()},
                                 module_path=list(mp), level_limit=k, options={kk: list(vv) if isinstance(vv, tuple) else vv for kk, vv in opts.items()})
